@@ -122,6 +122,26 @@ func init() {
 			{Engine: "crash", Backends: memAll, Quick: 1500, Thorough: 60000},
 			{Engine: "hist", Mode: "audit", Backends: memAll, Faults: []string{"crashes", "restarts"}, Quick: 2000, Thorough: 80000, Opt: fullOpt},
 			{Engine: "hist", Mode: "bulk", Backends: []string{"bbolt", "bbolt", "badger-disk"}, Faults: []string{"restarts"}, Quick: 400, Thorough: 15000, Opt: fullOpt},
+			{Engine: "crashproc", Backends: []string{"bbolt", "bbolt", "badger-disk"}, Quick: 64, Thorough: 2500, Params: map[string]string{"points": "10", "strace": "1"}},
+			{Engine: "crashproc", Backends: []string{"bbolt", "badger-disk"}, Quick: 8, Thorough: 300, Params: map[string]string{"points": "0", "strace": "1"}},
+		}
+	}
+}
+
+func init() {
+	propInfo["C15"] = &PropInfo{Level: "exploration", Rule: "two kinds of evaluation: (diff) one seeded fault-free history executed on bbolt, badger on disk and badger in memory, every operation's observable result (documents and their order, counts, catalog, error class) compared across the three and with the reference model; (cursor) a seeded key set written through store.Tx and iterated through store.Cursor after forward/reverse seeks to present, absent, before-first and after-last targets, inside the writing transaction and in a later read transaction, compared with a sorted-slice model. Non-trivial: at least one cross-backend comparison or cursor-contract comparison was made; distinct = distinct hash of the op list", Assumptions: commonAssumptions, RequiredProbes: []string{"cursor-seek-present", "cursor-seek-absent", "cursor-seek-before-first", "cursor-seek-after-last", "cursor-seek-beyond-end", "diff-observations"}}
+	propInfo["C17"] = &PropInfo{Level: "exploration", Rule: "each evaluation is one seeded index scenario: index.RangeIndex created over a transaction of the backend, entries added/removed through Add/Remove, then range scans (boundary values x inclusivity x direction, nil-only range, open ends), full iterations, early-stop consumers and range intersections, inside the writing transaction and in a later read transaction, compared with a filter+order model over the same (value, id) multiset. Non-trivial: at least one scan was compared; distinct = distinct hash of the op list", Assumptions: append([]string{"hook: clover.VerifErrStopIteration (build tag verif) exposes the internal stop sentinel so that the harness can ask a scan to stop"}, commonAssumptions...), RequiredProbes: []string{"idx-scan-nonempty", "idx-reverse-scan", "idx-nil-only-range", "idx-bound-equals-stored-value", "idx-stop-requested", "idx-scan-in-read-tx", "idx-intersect"}}
+	extraJobs["C15"] = func(tier string) []Job {
+		return []Job{
+			{Engine: "diff", Quick: 400, Thorough: 20000},
+			{Engine: "cursor", Backends: []string{"bbolt", "bbolt", "badger-mem", "badger-disk"}, Quick: 1200, Thorough: 60000},
+			{Engine: "cursor", Backends: []string{"mem-sw-livecur", "mem-opt-snapcur"}, Quick: 400, Thorough: 20000},
+		}
+	}
+	extraJobs["C17"] = func(tier string) []Job {
+		return []Job{
+			{Engine: "idx", Backends: memAll, Quick: 6000, Thorough: 300000},
+			{Engine: "idx", Backends: []string{"bbolt", "bbolt", "badger-mem", "badger-disk"}, Quick: 1500, Thorough: 60000},
 		}
 	}
 }
